@@ -184,6 +184,22 @@ def strata(tier):
                           "cast": None, "doc": rng.choice(DOCS), "_always": True})
         rng.shuffle(rules)
         yield {"rules": rules, "nested": j % 2 == 0, "from_path": None, "anchor": None}
+    # explicit map_value / list_value parts with integer keys or labels (outside the statement's "string / integer
+    # keys and bare parts": the key conditions' child nodes are keyed differently there even on a correct tree,
+    # so only the model-free clauses are judged: no error, one node per rule, parent relation, flat == nested, HTML)
+    for j in range(40 if tier == "quick" else 150):
+        rng = G.rng_for("C20-explicit", j)
+        k1 = rng.choice([1, 0, 7, "a"])
+        first = rng.choice([{"p": "map", "key": {"prim": k1}}, {"p": "map", "key": {"prim": "a"}, "label": rng.choice(["L", "x y"])},
+                            {"p": "list", "index": {"prim": 0}}, {"p": "map", "key": {"prim": k1}, "label": "L"}])
+        rules = [{"path": PC.mkpath([]), "cond": L("equal_to", {"$type": "dict"}, pre="dtype"), "cast": None, "doc": rng.choice(DOCS), "_always": True},
+                 {"path": PC.mkpath([first]), "cond": L("is_instance", {"$type": "dict"}, {"$type": "list"}), "cast": None, "doc": rng.choice(DOCS), "_always": True},
+                 {"path": PC.mkpath([first, {"p": "prim", "v": rng.choice(["b", 0, "c"])}]), "cond": L("truthy"), "cast": None, "doc": rng.choice(DOCS), "_always": True},
+                 {"path": PC.mkpath([first, {"p": "prim", "v": "d"}, {"p": "prim", "v": "e"}]), "cond": L("falsy"), "cast": None, "doc": None, "_always": True},
+                 {"path": PC.mkpath([first, {"p": "prim", "v": "d"}]), "cond": L("is_instance", {"$type": "dict"}), "cast": None, "doc": None, "_always": True}]
+        rng.shuffle(rules)
+        fp = rng.choice([None, None, [first], [first, {"p": "prim", "v": "d"}]])
+        yield {"rules": rules, "nested": j % 2 == 0, "from_path": fp, "anchor": rng.choice([None, "root"]), "relaxed": True}
     # fixed regression shapes
     root = {"path": PC.mkpath([]), "cond": {"c": "and", "a": L("equal_to", {"$type": "dict"}, pre="dtype"),
                                             "b": {"c": "and", "a": L("required_keys", "a"), "b": L("allowed_keys", "a", "b")}},
@@ -342,7 +358,10 @@ def run(case, ctx):
     got_ids = [tuple(n["path_str"]) for n in flat]
     if len(set(got_ids)) != len(got_ids):
         ctx.violate("C20/node-dup", f"duplicate nodes in the flat tree: {got_ids}")
-    if set(got_ids) != exp_ids:
+    relaxed = bool(case.get("relaxed"))
+    if relaxed:
+        ctx.count("explicit-parts(relaxed-oracle)")
+    if set(got_ids) != exp_ids and not relaxed:
         ctx.violate("C20/node-set", f"flat tree nodes differ from the expected set: extra {sorted(set(got_ids) - exp_ids)[:3]}, "
                     f"missing {sorted(exp_ids - set(got_ids))[:3]}")
     # each rule exactly once with its condition, doc and simplified path
@@ -381,7 +400,7 @@ def run(case, ctx):
             if tuple(ch["path_str"])[:-1] != tuple(n["path_str"]):
                 ctx.violate("C20/nested-parent", f"{tuple(ch['path_str'])} nested under {tuple(n['path_str'])}")
     # required flags
-    for n in flat:
+    for n in ([] if relaxed else flat):
         i = tuple(n["path_str"])
         want = exp_required.get(i, False)
         if bool(n.get("required")) != want:
